@@ -44,8 +44,8 @@ static CaseResult run_case(Tape &t)
 	if (real) return real_client_case(t);
 	CaseResult r;
 	ses::Profile P;
-	P.w_ping = 5; P.w_up = 6; P.w_offer = 4; P.w_adv = 2; P.w_nreq = 0; P.w_redeliver = 7; P.w_freeze = 1;
-	P.max_sessions = 1; P.max_body = 900; P.max_actions = 90; P.big_frag = true;
+	P.w_ping = 5; P.w_up = 6; P.w_offer = 4; P.w_adv = 2; P.w_nreq = 1; P.w_redeliver = 7; P.w_freeze = 1;
+	P.max_sessions = 1; P.max_body = 900; P.max_actions = 90; P.big_frag = true; P.z_cmc = true;
 	ses::Run R;
 	ses::run_sessions(t, P, R);
 	r.render = R.render;
@@ -58,6 +58,7 @@ static CaseResult run_case(Tape &t)
 	if (R.n_red_lastfrag) r.cls("repeat-of-last-fragment");
 	for (auto &pp : R.peers) if (pp->F > 1200) { r.cls("fragment-size>1200"); break; }
 	if (R.n_red_cache) r.cls("repeat-in-cache-window");
+	if (R.n_red_case_z) r.cls("case-changed-repeat-with-z-in-the-fingerprint");
 	if (R.n_red_after_lower) r.cls("repeat-of-an-answer-forgotten-when-the-size-was-lowered");
 	if (R.n_red_qmem) r.cls("repeat-in-qmem-window");
 	if (R.n_red_pending) r.cls("repeat-of-pending");
